@@ -57,7 +57,7 @@ SPEC = dict(
         "Definition sampled_expectation_value (d : list (N * Q)) (op : list term) : Q :=\n"
         "  plain_expectation (map (fun sp => (snd sp, eval_diag op (fst sp))) d).\n"
     ),
-    reserved=["entry", "term", "dist", "fill", "cvar", "isclose", "accumulate", "rtol", "atol", "evaluator"],
+    reserved=["entry", "term", "dist", "fill", "cvar", "isclose", "isclose_tol", "isclose_rel", "accumulate", "rtol", "atol", "evaluator"],
     attrs={
         ("complex", "real"): ("{0}", Q),
         ("BitstringEvaluator", "_input_length"): ("ev_len {0}", Z),
@@ -72,7 +72,8 @@ SPEC = dict(
         ("BitstringEvaluator", "_evaluation_function"): dict(code="ev_fun {0} {bitstring}", ty=Q, params=[("bitstring", Bits)], partial=True),
     },
     funcs={
-        "isclose": dict(code="isclose {a} {b}", ty=BOOL, params=[("a", Q), ("b", Q)]),
+        # numpy.isclose(a, b, atol=1e-8): the model's isclose_tol (isclose_tol atol = isclose, isclose_tol 0 = isclose_rel)
+        "isclose": dict(code="isclose_tol {atol} {a} {b}", ty=BOOL, params=[("a", Q), ("b", Q), ("atol", Q)], optional={"atol": "atol"}),
         "sampled_expectation_value": dict(code="sampled_expectation_value {dist} {oper}", ty=Q, params=[("dist", Dist), ("oper", Operator)]),
         "_evaluate_sparsepauli": dict(code="eval_diag {observable} {state}", ty=Complex, params=[("state", IntState), ("observable", Operator)]),
         # the translated function itself (defined earlier in the generated module); `_` = its state type, inferred
